@@ -25,9 +25,11 @@ def sortSpecOf (v : Val) : R (Option SortSpec) :=
   | .null => .ok none
   | .arr [] => .ok none
   | .arr xs =>
-    (xs.mapM (fun x => match x with
-      | .arr [.str k, .int d] => some (k, d)
-      | _ => none)).elim unmodelled (fun l => .ok (some l))
+    match xs.mapM (fun (x : Val) => match x with
+      | Val.arr [Val.str k, Val.int d] => some (k, d)
+      | _ => none) with
+    | some l => .ok (some l)
+    | none => unmodelled
   | _ => unmodelled
 
 /-- `find_one(filter, projection, sort=…)`: the cursor computes the WHOLE projected result list
@@ -121,7 +123,7 @@ inductive BulkOut where
 
 /-- one executor of `BulkOperationBuilder.execute`; `none` = the builder refused the request when
     it was added (`validate_ok_for_update` in `register_update_op`) — raised before anything runs -/
-def bulkOne (cfg : Cfg) (now : Int) (c : Coll) (req : Val) : Coll × BulkOut :=
+def bulkOne (cfg : Cfg) (now : Int) (c : Coll) (idx : Nat) (req : Val) : Coll × BulkOut :=
   let upd (f u : Val) (upsert multi : Bool) : Coll × BulkOut :=
     let (c', r) := applyUpdateColl cfg now c f u upsert multi
     match r with
@@ -132,7 +134,7 @@ def bulkOne (cfg : Cfg) (now : Int) (c : Coll) (req : Val) : Coll × BulkOut :=
         let t := match res.upserted with
           | some id =>
             if id.truthy then
-              { t with upserted := t.upserted ++ [.doc [("index", .int t.upserted.length), ("_id", id)]],
+              { t with upserted := t.upserted ++ [Val.doc [("index", Val.int idx), ("_id", id)]],
                        nUpserted := t.nUpserted + res.n }
             else { t with nMatched := t.nMatched + res.n }
           | none => { t with nMatched := t.nMatched + res.n }
@@ -177,7 +179,7 @@ def bulkLoop (cfg : Cfg) (now : Int) (ordered : Bool) :
   | [], _, c, t =>
     if t.errors.isEmpty then (c, .val t.toVal) else (c, .bulkErr t.toVal)
   | r :: rest, idx, c, t =>
-    match bulkOne cfg now c r with
+    match bulkOne cfg now c idx r with
     | (c', .ok f) => bulkLoop cfg now ordered rest (idx + 1) c' (f t)
     | (c', .writeErr e) =>
       let t' := { t with errors := t.errors ++ [.doc [("index", .int idx), ("code", errCode e)]] }
